@@ -2,11 +2,14 @@
     Proved for the three-stage release/acquire view machine (Conc/RA3.v + Conc/RA3values.v): for every length, every pushed
     sequence [pv], every worker transformation [f], every interleaving at atomic-access granularity and every admissible stale
     read, the consumer's log is at every moment [f (pv len); f (pv (len+1)); ...] up to the number of reads it has made.
-    PARTIAL: single-slot operations (slice and detached forms are covered by the sequential refinement, the event-trace
-    correspondence and the scripted executions); C11 conformance of compiler/CPU assumed. *)
+    Multi-slot (slice) operations: C02_prefix_slices; reset_index / detached consumer: C02_values_reset_detached ff.
+    PARTIAL: detached worker / producer forms are covered by the sequential refinement, the event-trace
+    correspondence and the scripted executions; C11 conformance of compiler/CPU assumed. *)
 From Coq Require Import List Arith Bool Lia.
 Import ListNotations.
 Require Import MRB.Model.Trace MRB.Conc.RA MRB.Conc.RA3 MRB.Conc.RA3proof MRB.Conc.RA3values MRB.Proofs.ConcClosing MRB.gen.Profile.
+From Coq Require Import Sorted.
+Require MRB.Conc.RA3n MRB.Conc.RA3nvalues MRB.Conc.RAx MRB.Conc.RAxvalues.
 
 Theorem C02_prefix :
   forall (len : nat) (pv f init : nat -> nat) (script : list (tid * nat)), 0 < len ->
@@ -21,6 +24,41 @@ Theorem C02_same_machine :
   fst (vexec len pv f c v script) = exec3 len c script.
 Proof. intros. apply RA3values.vexec_fst. Qed.
 Print Assumptions C02_same_machine.
+
+(** MULTI-SLOT windows (slice operations of any size; other threads interleave between the slot accesses of one call), three
+    stages: at every moment - also in the middle of a window - the consumer's log is the prefix with the worker's edits *)
+Theorem C02_prefix_slices :
+  forall (len : nat) (pv f init : nat -> nat) (script : list (RA3.tid * nat * nat)), 0 < len ->
+  let '(c, v) := RA3nvalues.vexec_n len pv f (RA3n.init3_n len) (RA3nvalues.vinit0 len init) script in
+  c = RA3n.exec3_n len (RA3n.init3_n len) script /\
+  RA3nvalues.clog v = map (fun p => f (pv p)) (seq len (RA3nvalues.consumed len c)) /\
+  RA3n.race3 c = false.
+Proof. exact RA3nvalues.consumed_is_prefix_n. Qed.
+Print Assumptions C02_prefix_slices.
+
+(** two stages with reset_index and a detached consumer: every value read is the value pushed at that position (never a stale,
+    overwritten or not yet written slot), positions strictly increase and stay below what the producer published (nothing
+    duplicated or reordered); without resets the log is exactly a prefix (nothing lost) *)
+Theorem C02_values_reset_detached :
+  forall (len : nat) (pv init : nat -> nat) (script : list (bool * RAx.cmd)), 0 < len ->
+  let v := RAxvalues.vrun len pv init script in RAxvalues.clog v = map pv (RAxvalues.plog v).
+Proof. exact RAxvalues.consumed_values_x. Qed.
+Print Assumptions C02_values_reset_detached.
+
+Theorem C02_positions_increasing :
+  forall (len : nat) (pv init : nat -> nat) (script : list (bool * RAx.cmd)), 0 < len ->
+  let c := RAx.exec_x len (RAx.init_x len) script in
+  let v := RAxvalues.vrun len pv init script in
+  StronglySorted lt (RAxvalues.plog v) /\ Forall (fun p => len <= p < RAx.publishedP c) (RAxvalues.plog v).
+Proof. exact RAxvalues.consumed_positions_increasing_x. Qed.
+Print Assumptions C02_positions_increasing.
+
+Theorem C02_no_reset_prefix :
+  forall (len : nat) (pv init : nat -> nat) (script : list (bool * RAx.cmd)), 0 < len ->
+  (forall t j, ~ In (t, RAx.Reset j) script) ->
+  let v := RAxvalues.vrun len pv init script in RAxvalues.plog v = seq len (length (RAxvalues.plog v)).
+Proof. exact RAxvalues.no_reset_prefix_x. Qed.
+Print Assumptions C02_no_reset_prefix.
 
 Theorem C02_observed_ok : profile_ok Profile.observed = true /\ Profile.extractor_clean = true.
 Proof. vm_compute. split; reflexivity. Qed.
